@@ -202,7 +202,8 @@ Definition flush_ok (ls : list flabel) : bool :=
    reading of the flush context's (mock) clock at every attempt, in ns.  The clock only moves when a
    timer of the loop fires, so the time between two attempts is the sleep and the time since the
    first attempt is what backoff.GetElapsedTime() returns.  The back-off oracle of the run is rebuilt
-   from that: Stop iff elapsed > window (cenkalti/backoff v2: `GetElapsedTime() > MaxElapsedTime`),
+   from that: Stop iff window <> 0 and elapsed > window (cenkalti/backoff v2: `b.MaxElapsedTime != 0 &&
+   b.GetElapsedTime() > b.MaxElapsedTime`),
    otherwise the observed sleep.  The model of the backend's loop, run on these scripts, must make
    the same number of attempts, create the same timers (for newrelic: after Retry-After and the
    window cap have been applied to the oracle's value) and return the result the callback carried. *)
@@ -222,7 +223,9 @@ Fixpoint diffs (l : list Z) : list Z :=
 
 Definition lo_oracle (l : loopobs) (i : nat) : option Z :=
   let t j := nth j (lo_times l) 0%Z in
-  if (lo_window l <? t i - t 0%nat)%Z then None else Some (t (S i) - t i)%Z.
+  (* MaxElapsedTime = 0: no window (otlp's "until max_retries"); -1, the documented "retries disabled" of
+     datadog / influxdb / newrelic, makes elapsed > window true at the first call *)
+  if negb (lo_window l =? 0)%Z && (lo_window l <? t i - t 0%nat)%Z then None else Some (t (S i) - t i)%Z.
 
 Definition cerr_eqb (a b : cerr) : bool :=
   match a, b with ENil, ENil | EPost, EPost | ECtx, ECtx => true | _, _ => false end.
